@@ -54,8 +54,8 @@ Step(e) ==
       [] e.ev = "bframe" /\ e.midload >= 0 -> MidLoad(e) /\ UNCHANGED <<m, lastOut>>
       [] e.ev = "bframe" /\ e.midload < 0 -> BFrame(e) /\ UNCHANGED <<m, lastOut>>
       [] e.ev = "szxreport" ->
-            /\ IF e.at_once = e.border /\ e.later = e.border THEN bad' = bad
-               ELSE Report("border", [rows |-> {}, writes |-> <<>>, start |-> e.fe, reported |-> <<e.at_once, e.later>>, want |-> e.border, sample |-> <<>>])
+            /\ IF e.at_once = e.border /\ e.later = e.border /\ {e.painted[i] : i \in DOMAIN e.painted} = {e.border} THEN bad' = bad
+               ELSE Report("border", [rows |-> {}, writes |-> <<>>, start |-> e.fe, reported |-> <<e.at_once, e.later>>, want |-> e.border, sample |-> e.painted])
             /\ UNCHANGED <<m, start, lastOut>>
       \* a loaded snapshot sets the border: "or the border stored in the last loaded snapshot"
       [] e.ev = "snapshot" -> start' = e.border /\ UNCHANGED <<m, lastOut, bad>>
